@@ -97,14 +97,6 @@ theorem ed_undefined_count :
 theorem ed_undefined_decode (op : BitVec 8) (h : edUndefined op = true) : decodeED op = .nop2 := by
   revert op; apply Impl.forall_bv8; decide +kernel
 
-/-- no interrupt is accepted at this boundary and no EI/DI/prefix delay is pending -/
-def Quiescent (s : Cpu) (b : β) : Prop :=
-  s.skipInt = false ∧ Bus.nmiActive b = false ∧ (Bus.intActive b && s.iff1) = false
-
-theorem checkInterrupt_quiescent (s : Cpu) (b : β) (h : Quiescent s b) : checkInterrupt s b = (s, b) := by
-  obtain ⟨h1, h2, h3⟩ := h
-  simp [checkInterrupt, handleInterrupt, h1, h2, h3]
-
 /-- **Undefined ED opcodes are two-byte NOPs.** For every CPU state, every bus and each of the 178
 undefined codes: one `emulate` performs the two 4-T opcode fetches (`b → b1 → b2` are the bus states
 around them), advances PC by 2 and R by 2 (7-bit), steps the Q latch (`lastQ := q`, `q := 0`) and
